@@ -255,11 +255,11 @@ def fatal_in_jd(out):
     for i, ln in enumerate(lines):
         if re.match(r"^goroutine \d+ .*\[running", ln):
             for fn in lines[i + 1:i + 400]:
-                if not fn or fn[0] in " \t" or fn.startswith("runtime.") or fn.startswith("runtime/") or fn.startswith("..."):
-                    continue
                 if fn.startswith("goroutine "):
                     break
-                return fn.startswith("github.com/josephburnett/jd")
+                # the innermost frame that is not the Go runtime / standard library (those packages have no domain or module prefix)
+                if fn.startswith(("github.com/", "gopkg.in/", "golang.org/", "jdv/", "main.")):
+                    return fn.startswith("github.com/josephburnett/jd")
             return False
     return False
 
